@@ -1,8 +1,8 @@
 SPECIFICATION Spec
 CONSTANTS
-  Keys = {1,2,3,4}
+  Keys = {1,2,3}
   Costs = {0,1,2,3}
-  Ns = {0,1,4,7}
+  Ns = {0,1,2,4,7}
   Mode = "fifo"
   Refresh = TRUE
   Evicts = TRUE
